@@ -123,10 +123,12 @@ func ruleR11_3(w *World, r *Report) {
 		r.Lost("RepositoryMongo.InsertRealSnapshot")
 		return
 	}
+	d := deepOfDepth(fn, 1)
 	var mu *ssa.MapUpdate
-	forEachInstr(fn, func(in ssa.Instruction) {
-		if x, ok := in.(*ssa.MapUpdate); ok && strings.Contains(canonName(x.Key), "_orda_ver_") {
-			mu = x
+	var mux dins
+	d.each(func(x dins) {
+		if m, ok := x.in.(*ssa.MapUpdate); ok && strings.Contains(canonName(m.Key), "_orda_ver_") {
+			mu, mux = m, x
 		}
 	})
 	var rep, filt ssa.CallInstruction
@@ -139,9 +141,29 @@ func ruleR11_3(w *World, r *Report) {
 	good := mu != nil && rep != nil && filt != nil
 	detail := "the version is not stored in the written document, or the document is not replaced by id"
 	if good {
-		good = canonName(mu.Value) == "$5" && instrDominates(mu, rep.(ssa.Instruction)) && canonName(filt.Common().Args[0]) == "$3" &&
-			exprName(mu.Map) == exprName(rep.Common().Args[len(rep.Common().Args)-2])
-		detail = fmt.Sprintf("version value %s, filter %s: expected the sseq parameter stored before ReplaceOne of the same document, filtered by the id parameter", canonName(mu.Value), canonName(filt.Common().Args[0]))
+		doc := rep.Common().Args[len(rep.Common().Args)-2]
+		same := false
+		if mux.n == d.root {
+			same = exprName(mu.Map) == exprName(doc)
+		} else if ex, ok := stripIface(doc).(*ssa.Extract); ok && ex.Index == 0 && ssa.CallInstruction(asCall(ex.Tuple)) == mux.n.site {
+			// the helper returns the stamped map on every success return
+			same = true
+			forEachInstr(mux.n.fn, func(in ssa.Instruction) {
+				ret, isRet := in.(*ssa.Return)
+				if !isRet || len(ret.Results) < 2 {
+					return
+				}
+				if c, isC := ret.Results[len(ret.Results)-1].(*ssa.Const); !isC || c.Value != nil {
+					return
+				}
+				if exprName(ret.Results[0]) != exprName(mu.Map) {
+					same = false
+				}
+			})
+		}
+		ver := d.name(mux.n, mu.Value)
+		good = ver == "$5" && d.dominates(mux, dins{d.root, rep.(ssa.Instruction)}) && canonName(filt.Common().Args[0]) == "$3" && same
+		detail = fmt.Sprintf("version value %s, filter %s: expected the sseq parameter stored before ReplaceOne of the same document, filtered by the id parameter", ver, canonName(filt.Common().Args[0]))
 	}
 	pos := u.Pos(fn.Pos())
 	if mu != nil {
